@@ -10,6 +10,7 @@
 mod app;
 mod cases;
 pub mod dut;
+mod errlist;
 #[allow(clippy::all)]
 mod gen;
 pub mod rec;
